@@ -68,11 +68,25 @@ def _init_worker():
 
 
 def load_known():
+    """known_findings.json is the committed list; known/*.json hold per-property
+    parts that `python -m mc.consolidate` merges into it (both are read-only here)."""
     p = os.path.join(VERIF, 'known_findings.json')
-    if not os.path.exists(p):
-        return {'findings': [], 'fixed': []}
-    with open(p) as f:
-        return json.load(f)
+    out = {'findings': [], 'fixed': []}
+    if os.path.exists(p):
+        with open(p) as f:
+            out = json.load(f)
+    seen = {k['id'] for k in out['findings']}
+    kd = os.path.join(VERIF, 'known')
+    if os.path.isdir(kd):
+        for fn in sorted(os.listdir(kd)):
+            if fn.endswith('.json'):
+                with open(os.path.join(kd, fn)) as f:
+                    part = json.load(f)
+                for k in (part.get('findings', []) if isinstance(part, dict) else part):
+                    if k['id'] not in seen:
+                        seen.add(k['id'])
+                        out['findings'].append(k)
+    return out
 
 
 def match_known(prop_id, failure, known):
@@ -81,6 +95,15 @@ def match_known(prop_id, failure, known):
         if prop_id not in kf['properties']:
             continue
         pred = getattr(known_preds, kf['predicate'], None)
+        if pred is None:
+            for pid in kf['properties']:
+                try:
+                    pm = importlib.import_module('mc.kp_' + pid.lower())
+                except ImportError:
+                    continue
+                pred = getattr(pm, kf['predicate'], None)
+                if pred is not None:
+                    break
         if pred is None:
             raise RuntimeError('known finding %s names unknown predicate %s' % (kf['id'], kf['predicate']))
         try:
